@@ -66,7 +66,7 @@ BUDGET = {
     "quick": {"runs": 28, "chunk": 2, "wall": 100, "chunk_timeout": 500, "selfcheck": 6},
     "thorough": {"runs": 4000, "chunk": 8, "wall": 1700, "chunk_timeout": 900, "selfcheck": 24},
 }
-_MODULES = ["tiny", "words", "shapes", "zoo", "plain", "floats", "loopy", "loopy"]
+_MODULES = ["tiny", "words", "shapes", "zoo", "plain", "floats", "loopy", "loopy", "loopy"]
 _envs: dict = {}
 _RUN = None  # the active _Run (inherited by forked children)
 
@@ -124,6 +124,7 @@ class _Link:
         self.elapsed = None
         self.received = False
         self.blocked_in_send = False
+        self.size = 0
 
 
 def _side_write(link: _Link, kind: str, elapsed: int) -> None:
@@ -139,11 +140,14 @@ class _SimSend:
 
     def send(self, obj):
         run = _RUN
-        _side_write(self.link, "S", run.clock.ns - self.link.t0 + self.link.delay_ns)
+        from multiprocess.reduction import ForkingPickler
+
+        buf = bytes(ForkingPickler.dumps(obj))  # what Connection.send would put on the pipe
+        _side_write(self.link, f"S{len(buf)}", run.clock.ns - self.link.t0 + self.link.delay_ns)
         if self.link.lost:
             self.real.close()
             return
-        self.real.send(obj)
+        self.real.send_bytes(buf)
 
     def close(self):
         self.real.close()
@@ -181,6 +185,9 @@ class _SimRecv:
                 buf += chunk
             if buf:
                 kind, el = buf.decode().split()
+                if kind.startswith("S"):
+                    link.size = int(kind[1:] or 0)  # size of the pickled result the child is about to write
+                    kind = "S"
                 link.kind, link.elapsed = kind, int(el)
             else:
                 # every planned way of dying reports first; a silent death is the harness' problem (see stderr of the child)
@@ -244,6 +251,14 @@ def _child_main(target, args, link):
         os._exit(code)
 
 
+def _real_join(proc, seconds: float) -> None:
+    """Wait for a real child in REAL time.  (Process.join(timeout) computes its deadline with time.monotonic, which is
+    the simulated clock here and does not move while we wait - it would never time out.)"""
+    t_end = simkit.real_monotonic() + seconds
+    while proc.exitcode is None and simkit.real_monotonic() < t_end:
+        simkit._REAL_SLEEP(0.005)  # noqa: SLF001
+
+
 class _SimProcess:
     def __init__(self, target=None, args=(), kwargs=None, daemon=None, **_):
         self.target, self.args = target, args
@@ -272,18 +287,19 @@ class _SimProcess:
             return  # in simulated time the child is still busy
         if self.link.kind == "S" and not self.link.received and not self.killed:
             # the child announced its result but nobody has received it yet: it can only exit once the pipe takes the
-            # whole message.  Give it a moment of real time; if it is still there it is blocked in send, and a join
-            # before recv lasts its full timeout in simulated time.
-            self.real.join(0.5)
-            if self.real.exitcode is None:
-                run = _RUN
-                run.probes["joins_of_a_child_blocked_in_send"] += 1
-                if timeout is not None:
-                    run.clock.advance(int(max(0.0, timeout) * 1e9))
-                self.link.blocked_in_send = True
+            # whole message.  A message larger than the pipe buffer keeps it blocked in send, and a join before recv
+            # then lasts its full timeout in simulated time.
+            # decided from the size of the message, not from real time: a pipe takes 64 KiB
+            if self.link.size <= 60000:
+                _real_join(self.real, 60)
                 return
+            run = _RUN
+            run.probes["joins_of_a_child_blocked_in_send"] += 1
+            if timeout is not None:
+                run.clock.advance(int(max(0.0, timeout) * 1e9))
+            self.link.blocked_in_send = True
             return
-        self.real.join(60)
+        _real_join(self.real, 60)
 
     @property
     def exitcode(self):
@@ -292,7 +308,7 @@ class _SimProcess:
         if getattr(self.link, "blocked_in_send", False) and not self.killed and not self.link.received:
             return None
         if self.real.exitcode is None:
-            self.real.join(60)
+            _real_join(self.real, 60)
         return self.real.exitcode
 
     def kill(self):
@@ -301,7 +317,7 @@ class _SimProcess:
             self.real.kill()
         except Exception:  # noqa: BLE001
             pass
-        self.real.join(60)
+        _real_join(self.real, 60)
 
     def is_alive(self):
         return self.exitcode is None
@@ -329,7 +345,12 @@ class _SimMP:
 # case generation
 # ---------------------------------------------------------------------------------------------
 def _loopy_desc(rng) -> dict:
-    kind = rng.choice(["spin_inf", "helper_spin", "nap", "term", "term", "raise_late", "mixed", "big"])
+    kind = rng.choice(["spin_inf", "helper_spin", "nap", "term", "term", "raise_late", "mixed", "big", "mid_nap", "mid_nap"])
+    if kind == "mid_nap":
+        # one statement needs longer than the per-statement time but the test case stays within its bound
+        return {"kind": kind, "calls": [["branchy", rng.randrange(0, 5), rng.randrange(0, 5)],
+                                        ["nap_then_work", rng.choice([1.4, 2.4]), rng.randrange(0, 8)],
+                                        ["classify", rng.choice(["", "apple", "kiwi"])], ["spin", rng.randrange(0, 4)]]}
     if kind == "big":
         # a single result larger than the pipe buffer (the child blocks in send until the parent receives)
         return {"kind": kind, "calls": [["big", rng.choice([2, 3])], ["classify", "kiwi"]]}
